@@ -492,6 +492,12 @@ impl PooledBuffer {
     /// Create a new pooled buffer of the specified size
     pub fn new(size: usize) -> Result<Self> {
         let pool = GLOBAL_POOLS.get_pool_for_size(size).clone();
+        if size > pool.config().chunk_size {
+            // the largest pool hands out fixed 1 MiB chunks; a longer buffer would run past it
+            return Err(ZiporaError::invalid_data(
+                "requested size exceeds the largest pooled chunk",
+            ));
+        }
         let chunk = pool.allocate()?;
 
         Ok(Self {
